@@ -96,11 +96,12 @@ def run(ctx):
                     if el[0] == "field" and len(el) > 3 and el[3] in cap_adts and el[2] in cap_adts[el[3]]:
                         enc_uses.setdefault((el[3], el[2]), []).append(("encode", "header", c.where()))
     # encode functions that hand out the captured bytes bare (the caller places them unwrapped)
-    for n, b in f.bodies.items():
+    for n0, b in f.bodies.items():
+        n = root_fn(f, n0)
         if is_derived(b) or not re.search(r"::encode(_ref)?\w*$", n):
             continue
         for _, _, t in success_values(b):
-            if t[0] == "field" and len(t) > 3 and t[3] in cap_adts and t[2] in cap_adts[t[3]] and render(t[1]) == "self":
+            if t[0] == "field" and len(t) > 3 and t[3] in cap_adts and t[2] in cap_adts[t[3]] and render(t[1]) in ("self", "^self"):
                 # how do the callers frame the bare bytes?
                 for c0 in calls_to(f, lambda c, n=n: c.res == n):
                     cb = c0.body
